@@ -1238,7 +1238,9 @@ class ValueMap(Value):
 
     def asList(self):
         result = ValueList()
-        for value in sorted(self.value.values()):
+        # equal values (1 and 1.0) stay in the order of their keys, not in
+        # the order the entries were put into the map
+        for value in sorted(v for _, v in self.getSortedEntries()):
             result.addItem(value)
         return result
 
